@@ -2009,13 +2009,13 @@ handshake_switch_codec(int dns_fd, int bits)
 		read = handshake_waitdns(dns_fd, in, sizeof(in) - 1, 's', 'S', i+1);
 
 		if (read > 0) {
-			if (strncmp("BADLEN", in, 6) == 0) {
+			if (read >= 6 && strncmp("BADLEN", in, 6) == 0) {
 				fprintf(stderr, "Server got bad message length. ");
 				goto codec_revert;
-			} else if (strncmp("BADIP", in, 5) == 0) {
+			} else if (read >= 5 && strncmp("BADIP", in, 5) == 0) {
 				fprintf(stderr, "Server rejected sender IP address. ");
 				goto codec_revert;
-			} else if (strncmp("BADCODEC", in, 8) == 0) {
+			} else if (read >= 8 && strncmp("BADCODEC", in, 8) == 0) {
 				fprintf(stderr, "Server rejected the selected codec. ");
 				goto codec_revert;
 			}
@@ -2063,13 +2063,13 @@ handshake_switch_downenc(int dns_fd)
 		read = handshake_waitdns(dns_fd, in, sizeof(in) - 1, 'o', 'O', i+1);
 
 		if (read > 0) {
-			if (strncmp("BADLEN", in, 6) == 0) {
+			if (read >= 6 && strncmp("BADLEN", in, 6) == 0) {
 				fprintf(stderr, "Server got bad message length. ");
 				goto codec_revert;
-			} else if (strncmp("BADIP", in, 5) == 0) {
+			} else if (read >= 5 && strncmp("BADIP", in, 5) == 0) {
 				fprintf(stderr, "Server rejected sender IP address. ");
 				goto codec_revert;
-			} else if (strncmp("BADCODEC", in, 8) == 0) {
+			} else if (read >= 8 && strncmp("BADCODEC", in, 8) == 0) {
 				fprintf(stderr, "Server rejected the selected codec. ");
 				goto codec_revert;
 			}
@@ -2104,16 +2104,16 @@ handshake_try_lazy(int dns_fd)
 		read = handshake_waitdns(dns_fd, in, sizeof(in), 'o', 'O', i+1);
 
 		if (read > 0) {
-			if (strncmp("BADLEN", in, 6) == 0) {
+			if (read >= 6 && strncmp("BADLEN", in, 6) == 0) {
 				fprintf(stderr, "Server got bad message length. ");
 				goto codec_revert;
-			} else if (strncmp("BADIP", in, 5) == 0) {
+			} else if (read >= 5 && strncmp("BADIP", in, 5) == 0) {
 				fprintf(stderr, "Server rejected sender IP address. ");
 				goto codec_revert;
-			} else if (strncmp("BADCODEC", in, 8) == 0) {
+			} else if (read >= 8 && strncmp("BADCODEC", in, 8) == 0) {
 				fprintf(stderr, "Server rejected lazy mode. ");
 				goto codec_revert;
-			} else if (strncmp("Lazy", in, 4) == 0) {
+			} else if (read >= 4 && strncmp("Lazy", in, 4) == 0) {
 				fprintf(stderr, "Server switched to lazy mode\n");
 				lazymode = 1;
 				return;
@@ -2164,10 +2164,14 @@ static int
 fragsize_check(char *in, int read, int proposed_fragsize, int *max_fragsize)
 /* Returns: 0: keep checking, 1: break loop (either okay or definitely wrong) */
 {
-	int acked_fragsize = ((in[0] & 0xff) << 8) | (in[1] & 0xff);
+	int acked_fragsize;
 	int okay;
 	int i;
 	unsigned int v;
+
+	if (read < 2)
+		return 0;		/* no fragsize in this reply */
+	acked_fragsize = ((in[0] & 0xff) << 8) | (in[1] & 0xff);
 
 	if (read >= 5 && strncmp("BADIP", in, 5) == 0) {
 		fprintf(stderr, "got BADIP (Try iodined -c)..\n");
@@ -2193,6 +2197,12 @@ fragsize_check(char *in, int read, int proposed_fragsize, int *max_fragsize)
 
 	/* here: read == proposed_fragsize == acked_fragsize */
 
+	if (read < 3) {
+		/* nothing behind the length to check */
+		*max_fragsize = acked_fragsize;
+		return 1;
+	}
+
 	/* test: */
 	/* in[123] = 123; */
 
@@ -2205,7 +2215,7 @@ fragsize_check(char *in, int read, int proposed_fragsize, int *max_fragsize)
 
 	/* Check for corruption */
 	okay = 1;
-	v = in[3] & 0xff;
+	v = (read > 3) ? (in[3] & 0xff) : 0;
 
 	for (i = 3; i < read; i++, v = (v + 107) & 0xff)
 		if ((in[i] & 0xff) != v) {
@@ -2323,10 +2333,10 @@ handshake_set_fragsize(int dns_fd, int fragsize)
 
 		if (read > 0) {
 
-			if (strncmp("BADFRAG", in, 7) == 0) {
+			if (read >= 7 && strncmp("BADFRAG", in, 7) == 0) {
 				fprintf(stderr, "Server rejected fragsize. Keeping default.");
 				return;
-			} else if (strncmp("BADIP", in, 5) == 0) {
+			} else if (read >= 5 && strncmp("BADIP", in, 5) == 0) {
 				fprintf(stderr, "Server rejected sender IP address.\n");
 				return;
 			}
